@@ -31,7 +31,7 @@ EVENTS = [[1], [2], [3, 1], [1, 3], [2, 3], [2, 1, 2]]
 
 
 def budget(tier):
-    return {"examples": 450 if tier == "quick" else 40000, "wall_s": 110 if tier == "quick" else 1500}
+    return {"examples": 900 if tier == "quick" else 80000, "wall_s": 110 if tier == "quick" else 1500}
 
 
 @st.composite
@@ -39,11 +39,12 @@ def _case(draw):
     kind = draw(st.sampled_from(["standard", "diagonal", "conditional", "conditional", "bernoulli", "bernoulli", "mademog", "mademog",
                                  "boxuniform", "mg1", "lotka", "kde"]))
     c = {"kind": kind, "seed": draw(st.integers(0, 10 ** 6)), "event": draw(st.sampled_from(EVENTS)),
-         "what": draw(st.sampled_from(["normalisation", "normalisation", "sampling", "mean"])),
+         "what": draw(st.sampled_from(["normalisation", "normalisation", "sampling", "mean", "mean", "mean", "mean", "mean"])),
          "bs": draw(st.sampled_from([None, None, 100, 999, 7000]))}
     if kind == "conditional":
         c["encoder"] = draw(st.sampled_from(["identity", "linear", "mlp"]))
         c["rows"] = draw(st.integers(1, 3))
+        c["layout"] = draw(st.sampled_from(["flat", "shaped"]))      # parameters as [rows, 2*D] or event-shaped [rows, ..., 2*last]
     if kind == "bernoulli":
         c["D"] = draw(st.integers(1, 10))
         c["shape2"] = draw(st.booleans())
@@ -52,7 +53,9 @@ def _case(draw):
         c["precise"] = draw(st.booleans())
         c["encoder"] = draw(st.sampled_from(["identity", "linear"]))
     if kind == "mademog":
-        c["features"] = draw(st.sampled_from([1, 1, 1, 2]))
+        c["features"] = draw(st.sampled_from([1, 1, 2, 3, 3]))
+        c["random_mask"] = draw(st.booleans())
+        c["blocks"] = draw(st.integers(1, 2))
         c["components"] = draw(st.integers(1, 4))
         c["ctx"] = draw(st.sampled_from([None, 2]))
         c["res"] = draw(st.booleans())
@@ -60,6 +63,10 @@ def _case(draw):
         c["perturb"] = draw(st.sampled_from([0.0, 0.3, 1.0]))
         c["rows"] = draw(st.integers(1, 3))
         c["narrow"] = draw(st.sampled_from([0.0, 0.0, 3.0, 5.0]))
+        if c["features"] == 3:
+            # three features are decided by a tensor-product rule: wide components only, and mostly the normalisation question
+            c["narrow"], c["perturb"] = 0.0, draw(st.sampled_from([0.0, 0.3]))
+            c["what"] = draw(st.sampled_from(["normalisation", "normalisation", "normalisation", "sampling", "mean"]))
     if kind in ("boxuniform", "mg1"):
         c["D"] = 3 if kind == "mg1" else draw(st.integers(1, 4))
         c["low"] = draw(st.lists(st.sampled_from([-2.0, 0.0, 0.5, -10.0]), min_size=c["D"], max_size=c["D"]))
@@ -140,6 +147,11 @@ def run_case(case):
                 with torch.no_grad():
                     p = ctx if enc is None else enc(ctx)
                 means, lstd = t2n(p[..., :D]).reshape([rows] + ev), t2n(p[..., D:]).reshape([rows] + ev)
+                if enc is None and case.get("layout") == "shaped" and len(ev) >= 2:
+                    # event-shaped parameters: the last dimension holds [means | log-stds]
+                    ctx = torch.randn([rows] + ev[:-1] + [2 * ev[-1]], generator=g) * 0.7
+                    means, lstd = t2n(ctx[..., :ev[-1]]), t2n(ctx[..., ev[-1]:])
+                    res.labels.append("event_shaped_parameters")
             R = means.shape[0]
             site = type(d).__name__
             res.nontrivial = kind != "standard" or len(ev) > 1
@@ -265,8 +277,9 @@ def run_case(case):
         # ------------------------------------------------------------------ MADE mixture of Gaussians
         if kind == "mademog":
             F_, C_ = case["features"], case["components"]
-            d = dist.MADEMoG(F_, 8, case["ctx"], num_blocks=1, num_mixture_components=C_, use_residual_blocks=case["res"],
-                             custom_initialization=case["custom_init"])
+            rm_ = bool(case.get("random_mask", False))
+            d = dist.MADEMoG(F_, 8, case["ctx"], num_blocks=case.get("blocks", 1), num_mixture_components=C_,
+                             use_residual_blocks=case["res"] and not rm_, random_mask=rm_, custom_initialization=case["custom_init"])
             if case["perturb"]:
                 with torch.no_grad():
                     for p in d.parameters():
@@ -304,6 +317,31 @@ def run_case(case):
                     res.fail("mean_without_definition", site, "mean() returned although MADEMoG defines no mean")
                 except NoMeanException:
                     pass
+                return res
+            if what == "normalisation" and F_ == 3:
+                # three features: tensor-product Gauss-Legendre rule on [-R, R]^3 (two resolutions), valid for wide components only
+                if case.get("narrow") or case["perturb"] > 0.3:
+                    return res
+                R_ = 9.0
+                vals = []
+                for panels in (9, 13):
+                    edges = np.linspace(-R_, R_, panels + 1)
+                    xg, wg = np.polynomial.legendre.leggauss(7)
+                    mid, half = 0.5 * (edges[:-1] + edges[1:]), 0.5 * (edges[1:] - edges[:-1])
+                    pts = (mid[:, None] + half[:, None] * xg[None, :]).ravel()
+                    wts = (half[:, None] * wg[None, :]).ravel()
+                    G = np.stack(np.meshgrid(pts, pts, pts, indexing="ij"), -1).reshape(-1, 3)
+                    W = (wts[:, None, None] * wts[None, :, None] * wts[None, None, :]).ravel()
+                    lp_ = np.concatenate([logp(G[i:i + 200000]) for i in range(0, len(G), 200000)])
+                    vals.append(float((np.exp(lp_) * W).sum()))
+                v, e = vals[1], abs(vals[1] - vals[0])
+                res.labels.append("three_features")
+                if e > 2e-4 or not np.isfinite(v):
+                    res.inconclusive += 1
+                    return res
+                res.see_ratio(abs(v - 1), 5e-4 + 10 * e)
+                if abs(v - 1) > 5e-4 + 10 * e:
+                    res.fail("not_normalised", site, "integral of exp(log_prob) over 3-D = %.6f (two grids differ by %.1g), %d components" % (v, e, C_), features=F_)
                 return res
             if what == "normalisation":
                 lo1, hi1 = (mu - 10 * sd).min(), (mu + 10 * sd).max()
